@@ -58,6 +58,32 @@ CHECKS = {
         design="5/C08",
         technique="TLA+ operator Select model-checked on the database; dispatcher observations validated by TLC",
     ),
+    "C03": dict(
+        level="model_checking",
+        text=("TLC checks on spec/N2KFastPacket.tla that Segment has the required shape and that the receiver returns nothing "
+              "until the last frame and then exactly the payload, for every length 0..223 x every counter state, and for runs of "
+              "18 consecutive messages over two stream keys (wrap-around). The real framer is compared with the TLC-emitted "
+              "segmentation table for all 224 x 8 cases; every message framed by the real encoder (arbitrary lengths, and all 143 "
+              "encodable fast-packet definitions through the public encoders) is judged by TLC against Segment, and the frames, fed "
+              "in order to real decoders, give traces that TLC validates against Recv."),
+        note="Trusted: TLC; _encode_fast_message driven directly for arbitrary lengths; payload on the public path observed by re-encoding (C02).",
+        design="5/C03",
+        technique="TLA+ spec N2KFastPacket; TLC exhaustive over lengths/counters; table emission + trace validation of real encoder/decoder",
+    ),
+    "C04": dict(
+        level="model_checking",
+        text=("TLC explores the receiver of N2KFastPacket behind a network that interleaves two streams and reorders, duplicates "
+              "(current and older messages), loses non-first frames, and loses a first frame after a completed message; invariants "
+              "NoFabrication, OnLast, NoRedelivery, InOrder hold in every reachable state (0.75 M states quick). Behaviours of a larger "
+              "configuration (4 streams differing in source / destination / PGN, 10 lengths, padded and unpadded frames, up to 4 stray "
+              "frames) are generated by TLC, replayed frame by frame into the real decoder, and the recorded traces are validated by "
+              "TLC against Recv; the repository's capture fixtures are validated as well (drift only)."),
+        note=("Trusted: TLC; the four concrete stream keys and the fallback definitions' data field as the observation of the payload. "
+              "Domain as in the property: consecutive messages of a stream carry different counters; stray old frames carry a counter "
+              "different from the current message's."),
+        design="5/C04",
+        technique="TLA+ spec N2KFastPacket + faulty network (MC_FP) model-checked by TLC; TLC-generated behaviours replayed into the decoder, traces validated by TLC",
+    ),
     "C05": dict(
         level="model_checking",
         text=("TLC checks the identifier laws of spec/N2KCanId.tla (IdLaw, TupleLaw) over every "
